@@ -235,8 +235,10 @@ def hierarchy_profile(i: int) -> mmgen.Profile:
 
 
 def worker(args) -> Dict[str, Any]:
-    argv, shard, n_shards, n_models = args
+    argv, shard, n_shards, n_models = args[:-1]
+    mins = args[-1]
     chk = harness.Check("C05", "exploration", RULE, argv)
+    chk.set_worker_minimums(mins, n_shards)
     budget = chk.wall_budget(120, 900)
     models: List[Tuple[str, str]] = []
     if shard == 0:
@@ -248,7 +250,7 @@ def worker(args) -> Dict[str, Any]:
                 chk.hist("mmg_features", k, v)
         models.append((f"mmg/{chk.seed}/{i}", m.text))
     for idx, (name, text) in enumerate(models):
-        if chk.elapsed() > budget:
+        if chk.should_stop(budget):
             chk.count("models_skipped_for_budget", len(models) - idx)
             break
         check_model(chk, name, text)
@@ -259,8 +261,12 @@ def main(argv) -> int:
     chk = harness.Check("C05", "exploration", RULE, argv)
     n_models = chk.pick(300, 8000)
     n_shards = 12
+    mins = {
+        "models_checked": chk.pick(100, 800),
+        "constructors_checked": chk.pick(300, 2500),
+    }
     with concurrent.futures.ProcessPoolExecutor(max_workers=n_shards) as pool:
-        jobs = [pool.submit(worker, (list(argv), s, n_shards, n_models)) for s in range(n_shards)]
+        jobs = [pool.submit(worker, (list(argv), s, n_shards, n_models, mins)) for s in range(n_shards)]
         for job in jobs:
             try:
                 chk.merge(job.result())
@@ -268,6 +274,6 @@ def main(argv) -> int:
                 chk.harness_error(f"worker failed: {err!r}")
     if chk.tier == "thorough":
         check_model(chk, "corpus/v3", corpus.v3())
-    chk.require_min("models_checked", chk.pick(100, 800))
-    chk.require_min("constructors_checked", chk.pick(300, 2500))
+    for counter_name, minimum in mins.items():
+        chk.require_min(counter_name, minimum)
     return chk.finish()
